@@ -136,7 +136,8 @@ Theorem extract_id_from_pub pk : wf_pub pk -> extract_pub (id_from_pub pk) = Ok 
 Proof.
   intros Hpk. unfold extract_pub, id_from_pub.
   rewrite decode_encode_multihash by (try apply mh_identity_range; apply marshal_pub_len, Hpk).
-  cbn [obind fst snd]. rewrite Z.eqb_refl. apply unmarshal_marshal_pub, Hpk.
+  cbn [obind fst snd]. rewrite Z.eqb_refl. rewrite unmarshal_marshal_pub by exact Hpk.
+  cbn [obind]. unfold matches_pub, id_from_pub. rewrite bytes_eqb_refl. reflexivity.
 Qed.
 
 Theorem id_from_pub_inj a b : wf_pub a -> wf_pub b -> id_from_pub a = id_from_pub b -> a = b.
@@ -262,31 +263,41 @@ Theorem extract_pub_total id : all_bytes id = true -> extract_pub id <> Panic.
 Proof.
   intros Hb. unfold extract_pub. pose proof (decode_multihash_no_panic id).
   destruct (decode_multihash id) as [[c d]|e|] eqn:E; cbn [obind fst snd]; try discriminate; try contradiction.
-  destruct (c =? mh_identity); [|discriminate]. apply unmarshal_pub_total.
-  eapply decode_multihash_bytes; eauto.
+  destruct (c =? mh_identity); [|discriminate].
+  pose proof (unmarshal_pub_total d (decode_multihash_bytes _ _ _ Hb E)) as T.
+  destruct (unmarshal_pub d) as [pk|e|]; cbn [obind]; try discriminate; try contradiction.
+  destruct (matches_pub id pk); discriminate.
 Qed.
 
-(* whatever extract returns is a 32-byte key, and only ids accepted by IDFromBytes have one *)
+(* ExtractPublicKey succeeds exactly on the id derived from the key it returns *)
 Theorem extract_pub_sound id pk : extract_pub id = Ok pk ->
-  zlen pk = ed25519_pub_size /\ id_from_bytes id = Ok id.
+  id = id_from_pub pk /\ zlen pk = ed25519_pub_size /\ id_from_bytes id = Ok id.
 Proof.
   unfold extract_pub, id_from_bytes.
   destruct (decode_multihash id) as [[c d]|e|]; cbn [obind fst snd]; try discriminate.
-  destruct (c =? mh_identity); [|discriminate]. unfold unmarshal_pub.
-  destruct (pb2_unmarshal d) as [[ty k]|e|]; cbn [obind]; try discriminate.
+  destruct (c =? mh_identity); [|discriminate].
+  destruct (unmarshal_pub d) as [k|e|] eqn:U; cbn [obind]; try discriminate.
+  destruct (matches_pub id k) eqn:M; [|discriminate].
+  intros H; inversion H; subst. apply matches_iff_derived in M. split; [exact M|]. split; [|reflexivity].
+  unfold unmarshal_pub in U. destruct (pb2_unmarshal d) as [[ty raw]|e|]; cbn [obind] in U; try discriminate.
   destruct (ty =? key_type_ed25519); [|discriminate].
-  destruct (zlen k =? ed25519_pub_size) eqn:E; [|discriminate].
-  intros H; inversion H; subst. apply Z.eqb_eq in E. auto.
+  destruct (zlen raw =? ed25519_pub_size) eqn:E; [|discriminate]. inversion U; subst. apply Z.eqb_eq in E. exact E.
 Qed.
 
-(* IDFromBytes accepts non-canonical encodings of an id (Go's Uvarint accepts
-   non-minimal varints): such an id carries a key it does not match *)
-Definition noncanonical_example : bytes := 128 :: 0 :: skipn 1 (id_from_pub (repeat 7 32)).
-Theorem id_noncanonical_accepted :
-  exists b pk, id_from_bytes b = Ok b /\ extract_pub b = Ok pk /\ wf_pub pk /\ matches_pub b pk = false.
+Theorem extract_pub_iff pk : wf_pub pk -> forall id, extract_pub id = Ok pk <-> id = id_from_pub pk.
 Proof.
-  exists noncanonical_example, (repeat 7 32). vm_compute. repeat split.
+  intros Hpk id. split.
+  - intros H. apply extract_pub_sound in H. tauto.
+  - intros ->. apply extract_id_from_pub, Hpk.
 Qed.
+
+(* IDFromBytes still accepts other encodings of an id (Go's Uvarint accepts
+   non-minimal varints); ExtractPublicKey refuses them *)
+Definition noncanonical_example : bytes := 128 :: 0 :: skipn 1 (id_from_pub (repeat 7 32)).
+Theorem id_noncanonical_no_key :
+  id_from_bytes noncanonical_example = Ok noncanonical_example /\
+  extract_pub noncanonical_example = Err ENotCanonical.
+Proof. vm_compute. split; reflexivity. Qed.
 
 (* ---------- C15 ---------- *)
 
